@@ -246,9 +246,10 @@ def check_two_level(ctx, case):
         if case.get("cited"):
             # documented inputs: a reference and small cited features all along the record (those inside the kept
             # stretch travel with the product into the next level)
-            r.annotations["references"] = [impl.mk_ref(300 + (sum(map(ord, rid)) % 7))]
+            base = 300 + 10 * (sum(map(ord, rid)) % 9)
+            r.annotations["references"] = [impl.mk_ref(base + q_) for q_ in range(4)]     # ≥ 10 papers by level 2
             for p in range(0, len(word) - 1, 3):
-                r.features.append(impl.mk_feature(impl.Feat(1, "u7", ("i1",), ((p, p + 1, 1),))))
+                r.features.append(impl.mk_feature(impl.Feat(1, "u7", ("i%d" % (1 + (p // 3) % 4),), ((p, p + 1, 1),))))
         return r
     prods = []
     with warnings.catch_warnings():
